@@ -68,7 +68,7 @@ def load(tp, sc):
     tp.lines(sc.cfg_lines())
     tp.lines(sc.lines())
     wf = tp.ask("wf")
-    if wf[1:] != [1, 1]:
+    if wf[1:3] != [1, 1]:
         raise RuntimeError(f"generated scenario is not well-formed: {wf}")
 
 
@@ -94,7 +94,10 @@ def run_scenario(seed, obs, n_reads=25, n_writes=12):
         try:
             drv = T.open_driver(LogixDriver, "10.0.0.1", tp)
         except Exception as e:        # noqa: BLE001
-            obs.note("open() failed", f"seed {seed}: {e!r} / {e.__cause__!r}")
+            if sc.note["big_ids"]:
+                obs.note("open() FAILED: symbol list continued from an instance id > 65535 (reserved logical format 0x27)")
+            else:
+                obs.note("open() FAILED", f"seed {seed}: {e!r} / {e.__cause__!r}")
             return
         obs.note("scenarios opened")
         v = RV.view(tp)
@@ -113,16 +116,21 @@ def run_scenario(seed, obs, n_reads=25, n_writes=12):
 
         # ---- reads, one call with several requests and single calls
         reqs = S.gen_read_requests(rng, sc, n_reads)
-        inval = S.gen_invalid_requests(rng, sc, 4)
-        allreqs = reqs + [r for _, r in inval]
-        rng.shuffle(allreqs)
-        results = drv.read(*allreqs)
+        results = drv.read(*reqs)
         if not isinstance(results, list):
             results = [results]
-        if len(results) != len(allreqs):
-            obs.note("READ RESULT COUNT", f"seed {seed}: {len(results)} for {len(allreqs)} requests")
+        if len(results) != len(reqs):
+            obs.note("READ RESULT COUNT", f"seed {seed}: {len(results)} for {len(reqs)} requests")
         singles = [(r, drv.read(r)) for r in reqs[:6]]
-        for req, res in list(zip(allreqs, results)) + singles:
+        for e in T.bad_events(tp.log(mark)):
+            if not (e["ev"] == "malformed" and e["why"] == 8 and sc.note["big_ids"]):
+                obs.note(f"bad event during VALID reads: {e['ev']} svc={e.get('service')} why={e.get('why')}", f"seed {seed}: {e}")
+        # invalid requests mixed with valid ones
+        inval = S.gen_invalid_requests(rng, sc, 4)
+        mixed = reqs[:5] + [r for _, r in inval]
+        rng.shuffle(mixed)
+        mres = drv.read(*mixed)
+        for req, res in list(zip(reqs, results)) + singles + list(zip(mixed, mres)):
             exp = RV.refread(tp, req)
             if exp is None:
                 if res:
@@ -146,8 +154,6 @@ def run_scenario(seed, obs, n_reads=25, n_writes=12):
                     obs.note("READ VALUE DIFFERS", f"seed {seed}: {req}: got {res.value!r} expected {RV.to_python(exp['value'])!r}", keep=10)
                 if not okt:
                     obs.note("READ TYPE STRING DIFFERS", f"seed {seed}: {req}: got {res.type!r} expected {exp['type']!r}", keep=10)
-        for e in T.bad_events(tp.log(mark)):
-            obs.note(f"bad event during reads: {e['ev']} svc={e.get('service')} why={e.get('why')}", f"seed {seed}: {e}")
         mark = tp.log_size()
 
         # ---- writes
@@ -195,7 +201,8 @@ def run_scenario(seed, obs, n_reads=25, n_writes=12):
                 obs.note("READ AFTER WRITE DIFFERS", f"seed {seed}: {req}: {rb!r}")
             sc.mem[inst] = after[inst]
         for e in T.bad_events(tp.log(mark)):
-            obs.note(f"bad event during writes: {e['ev']} svc={e.get('service')} why={e.get('why')}", f"seed {seed}: {e}")
+            if not (e["ev"] == "malformed" and e["why"] == 8 and sc.note["big_ids"]):
+                obs.note(f"bad event during writes: {e['ev']} svc={e.get('service')} why={e.get('why')}", f"seed {seed}: {e}")
         drv.close()
         obs.c["seconds in scenarios"] += int(time.time() - t0)
     except Timeout:
@@ -302,7 +309,7 @@ def project_from_fixture(path):
                 kind, code = "s", sub
             else:
                 kind, code = "a", NAME_CODE[mi["data_type"]]
-            hidden = mn not in dt["attributes"]
+            hidden = mn not in dt["attributes"] or mn.startswith(("ZZZZZZZZZZ", "__"))
             members.append({"name": mn, "kind": kind, "code": code, "arr": mi.get("array", 0) or 0, "off": mi["offset"],
                             "bit": mi.get("bit", 0) if mi["data_type_name"] == "BOOL" else 0, "hidden": hidden})
         tm = dt["template"]
@@ -328,9 +335,12 @@ def project_from_fixture(path):
         for m in t["members"]:
             if m["kind"] == "s":
                 m["code"] = m["code"]["id"]
-        # predefined-range ids name their type without ";"
+        # predefined-range ids name their type without ";"; their CTL / Control host is internal
         if t["id"] < 0x100 or t["id"] > 0xEFF:
             t["tail"] = None
+            for m in t["members"]:
+                if m["name"] in ("CTL", "Control"):
+                    m["hidden"] = True
     # nested templates must come first
     order, done = [], set()
 
@@ -352,7 +362,7 @@ def project_from_fixture(path):
             prog, base = name[8:].split(".", 1)
             if prog not in progs:
                 progs.add(prog)
-                sc.tags.append({"name": "Program:" + prog, "inst": 900000 + len(progs), "prog": None, "kind": "o", "code": 0x1068,
+                sc.tags.append({"name": "Program:" + prog, "inst": 60000 + len(progs), "prog": None, "kind": "o", "code": 0x1068,
                                 "dims": [], "bitpos": 0, "system": False, "access": 0, "attr3": 0, "attr5": 0, "attr6": 0})
         if tag["tag_type"] == "struct":
             kind, code = "s", tag["template_instance_id"]
@@ -364,10 +374,12 @@ def project_from_fixture(path):
                         "attr5": tag["symbol_object_address"], "attr6": tag["software_control"]})
     # instance ids must be distinct over all scopes in the target: move colliding program tags
     seen = set()
+    taken = {g["inst"] for g in sc.tags}
     for g in sc.tags:
         if g["inst"] in seen:
             g["_moved"] = g["inst"]
-            g["inst"] = max(seen) + 1
+            g["inst"] = next(i for i in range(20000, 65536) if i not in taken)
+            taken.add(g["inst"])
         seen.add(g["inst"])
     for g in sc.data_tags():
         sc.mem[g["inst"]] = bytes(sc.tag_size(g))
@@ -386,7 +398,7 @@ def calibrate(obs, path):
         tp.lines(sc.cfg_lines())
         tp.lines(sc.lines())
         wf = tp.ask("wf")
-        if wf[1:] != [1, 1]:
+        if wf[1:3] != [1, 1]:
             obs.note(f"calibration {label}: rebuilt project NOT well-formed {wf}")
             return False
         for t in sc.templates:
@@ -396,6 +408,20 @@ def calibrate(obs, path):
         signal.alarm(120)
         drv = T.open_driver(LogixDriver, "10.0.0.1", tp)
         got = json.loads(json.dumps(drv.tags_json))
+        # the fixtures predate pycomm3's rule that the CTL / Control host of a predefined type is internal
+        predefined = {("STRING" if t["name"] == "ASCIISTRING82" else t["name"]) for t in sc.templates if t["tail"] is None}
+
+        def norm(d):
+            if isinstance(d, dict):
+                d = {k: norm(x) for k, x in d.items()}
+                if "attributes" in d and d.get("name") in predefined:
+                    d["attributes"] = [a for a in d["attributes"] if a not in ("CTL", "Control")]
+                return d
+            if isinstance(d, list):
+                return [norm(x) for x in d]
+            return d
+        fx = norm(fx)
+        got = norm(got)
         for name, e in fx.items():
             g = got.get(name)
             if g is None:
